@@ -8,7 +8,9 @@ Model of the three accessors of elfio_versym.hpp.
 * `versym_r_section_accessor` / `versym_d_section_accessor` (`.gnu.version_r/_d`): walk the
   chain through file-provided offsets without any bounds check (here: checked reads, a
   fault is what the C++ would do wrong); every field goes through the convertor of the
-  owning `elfio` (after fixes/05).  The entry count is `DT_VERNEEDNUM` / `DT_VERDEFNUM` of
+  owning `elfio` (after fixes/05).  The generated sites are applied with *named* arguments
+  (`verneed_vn_aux := …`): the parameter names are the C++ field names, so a change of the field an
+  expression reads makes the model fail to build.  The entry count is `DT_VERNEEDNUM` / `DT_VERDEFNUM` of
   `.dynamic`, read by the dynamic accessor (C12) and a parameter here.
 -/
 import ElfioVerif.Model.Array
@@ -18,7 +20,7 @@ open Gen
 namespace Versym
 
 /-- constructor: cached entry count -/
-def mk (b : SecBuf) : BitVec 32 := if vs_ctor_guard true then vs_count b.size else 0
+def mk (b : SecBuf) : BitVec 32 := if vs_ctor_guard true then vs_count (section_size := b.size) else 0
 
 /-- `get_entries_num()` -/
 def entriesNum (num : BitVec 32) : BitVec 32 := if vs_num_guard true then num else 0
@@ -80,9 +82,9 @@ structure View where
 /-- loop body: `verneed += vn_next; veraux = verneed + vn_aux` (offsets from the section data) -/
 def step (e : Enc) (data : Option Bytes) (vn : Nat) : M (Nat × Nat) := do
   let nx ← rd32 "verneed/vn_next" data (vn + Elfxx_Verneed.vn_next_off)
-  let vn' := vn + (vr_next_off (cv32 e) nx).toNat
+  let vn' := vn + (vr_next_off (cv32 e) (verneed_vn_next := nx)).toNat
   let ax ← rd32 "verneed/vn_aux" data (vn' + Elfxx_Verneed.vn_aux_off)
-  pure (vn', vn' + (vr_aux_off1 (cv32 e) ax).toNat)
+  pure (vn', vn' + (vr_aux_off1 (cv32 e) (verneed_vn_aux := ax)).toNat)
 
 /-- `for (Elf_Word i = 0; i < no; ++i)` -/
 def loop (e : Enc) (data : Option Bytes) (no : BitVec 32) : Nat → BitVec 32 → Nat × Nat → M (Nat × Nat)
@@ -98,17 +100,17 @@ def getEntry (e : Enc) (b : SecBuf) (str : Option SecBuf) (num no : BitVec 32) :
   if vr_guard true no num then pure none else do
     let data := b.getData.data
     let ax ← rd32 "verneed/vn_aux" data Elfxx_Verneed.vn_aux_off
-    let (vn, va) ← loop e data no (no.toNat + 1) 0 (0, (vr_aux_off0 (cv32 e) ax).toNat)
+    let (vn, va) ← loop e data no (no.toNat + 1) 0 (0, (vr_aux_off0 (cv32 e) (verneed_vn_aux := ax)).toNat)
     let version ← rd16 "verneed/vn_version" data (vn + Elfxx_Verneed.vn_version_off)
     let fidx ← rd32 "verneed/vn_file" data (vn + Elfxx_Verneed.vn_file_off)
-    let file ← strAssign "verneed/file_name" str (vr_file_idx (cv32 e) fidx)
+    let file ← strAssign "verneed/file_name" str (vr_file_idx (cv32 e) (verneed_vn_file := fidx))
     let hash ← rd32 "verneed/vna_hash" data (va + Elfxx_Vernaux.vna_hash_off)
     let flags ← rd16 "verneed/vna_flags" data (va + Elfxx_Vernaux.vna_flags_off)
     let other ← rd16 "verneed/vna_other" data (va + Elfxx_Vernaux.vna_other_off)
     let nidx ← rd32 "verneed/vna_name" data (va + Elfxx_Vernaux.vna_name_off)
-    let name ← strAssign "verneed/dep_name" str (vr_name_idx (cv32 e) nidx)
-    pure (some { version := vr_version (cv16 e) version, file, hash := vr_hash (cv32 e) hash,
-                 flags := vr_flags (cv16 e) flags, other := vr_other (cv16 e) other, name })
+    let name ← strAssign "verneed/dep_name" str (vr_name_idx (cv32 e) (veraux_vna_name := nidx))
+    pure (some { version := vr_version (cv16 e) (verneed_vn_version := version), file, hash := vr_hash (cv32 e) (veraux_vna_hash := hash),
+                 flags := vr_flags (cv16 e) (veraux_vna_flags := flags), other := vr_other (cv16 e) (veraux_vna_other := other), name })
 
 end Verneed
 
@@ -123,9 +125,9 @@ structure View where
 
 def step (e : Enc) (data : Option Bytes) (vd : Nat) : M (Nat × Nat) := do
   let nx ← rd32 "verdef/vd_next" data (vd + Elfxx_Verdef.vd_next_off)
-  let vd' := vd + (vd_next_off (cv32 e) nx).toNat
+  let vd' := vd + (vd_next_off (cv32 e) (verdef_vd_next := nx)).toNat
   let ax ← rd32 "verdef/vd_aux" data (vd' + Elfxx_Verdef.vd_aux_off)
-  pure (vd', vd' + (vd_aux_off1 (cv32 e) ax).toNat)
+  pure (vd', vd' + (vd_aux_off1 (cv32 e) (verdef_vd_aux := ax)).toNat)
 
 def loop (e : Enc) (data : Option Bytes) (no : BitVec 32) : Nat → BitVec 32 → Nat × Nat → M (Nat × Nat)
   | 0, _, _ => throw (.fuel "verdef/loop")
@@ -139,14 +141,14 @@ def getEntry (e : Enc) (b : SecBuf) (str : Option SecBuf) (num no : BitVec 32) :
   if vd_guard true no num then pure none else do
     let data := b.getData.data
     let ax ← rd32 "verdef/vd_aux" data Elfxx_Verdef.vd_aux_off
-    let (vd, va) ← loop e data no (no.toNat + 1) 0 (0, (vd_aux_off0 (cv32 e) ax).toNat)
+    let (vd, va) ← loop e data no (no.toNat + 1) 0 (0, (vd_aux_off0 (cv32 e) (verdef_vd_aux := ax)).toNat)
     let flags ← rd16 "verdef/vd_flags" data (vd + Elfxx_Verdef.vd_flags_off)
     let ndx ← rd16 "verdef/vd_ndx" data (vd + Elfxx_Verdef.vd_ndx_off)
     let hash ← rd32 "verdef/vd_hash" data (vd + Elfxx_Verdef.vd_hash_off)
     let nidx ← rd32 "verdef/vda_name" data (va + Elfxx_Verdaux.vda_name_off)
-    let name ← strAssign "verdef/dep_name" str (vd_name_idx (cv32 e) nidx)
-    pure (some { flags := vd_flags (cv16 e) flags, ndx := vd_ndx (cv16 e) ndx,
-                 hash := vd_hash (cv32 e) hash, name })
+    let name ← strAssign "verdef/dep_name" str (vd_name_idx (cv32 e) (verdaux_vda_name := nidx))
+    pure (some { flags := vd_flags (cv16 e) (verdef_vd_flags := flags), ndx := vd_ndx (cv16 e) (verdef_vd_ndx := ndx),
+                 hash := vd_hash (cv32 e) (verdef_vd_hash := hash), name })
 
 end Verdef
 end ElfioVerif
